@@ -109,6 +109,40 @@ Reaches(ov, m, fuel) == m \in ov \/ (fuel > 0 /\ Reaches(ov, DefaultCallee(m), f
 EntryTerminates(mode, def) == \A m \in Methods : Reaches(ImplOverrides(mode, def), m, 4)
 
 (***************************************************************************)
+(* In-place decoding of #[repr(transparent)] structs (quote_decode_into):  *)
+(* the derive forwards `decode_into` to every field through a pointer cast *)
+(* - the FAST PATH - unless some field carries an attribute that changes   *)
+(* how it is decoded.  On the fast path each field is read as its DECLARED *)
+(* type, field by field, including zero-sized ones (a zero-sized type may  *)
+(* still have a non-empty encoding).  FastLayout is what the fast path     *)
+(* reads; it must be the layout.  IntoMode names the slips that seeded     *)
+(* changes made:                                                           *)
+(*   "ignore_compact"  the guard forgets #[codec(compact)]                 *)
+(*   "demorgan"        the guard is "no field is plain" instead of "some   *)
+(*                     field is not plain"                                 *)
+(*   "skip_zst"        zero-sized fields are not decoded on the fast path  *)
+(***************************************************************************)
+PlainField(fld) == fld.attr = "none"
+FastPathTaken(imode, def) ==
+  /\ def.kind = "struct" /\ def.transparent /\ Len(def.fs) > 0
+  /\ CASE imode = "ignore_compact" -> \A i \in 1..Len(def.fs) : def.fs[i].attr \notin {"encoded_as", "skip"}
+       [] imode = "demorgan" -> \E i \in 1..Len(def.fs) : PlainField(def.fs[i])
+       [] OTHER -> \A i \in 1..Len(def.fs) : PlainField(def.fs[i])
+\* zero-sized declared types of the grammar ("unit1" is a field-less one-variant enum: no memory, one byte on the wire)
+IsZstTy(t) == t \in {"unit0", "unit1"}
+FastFieldTy(t) == CASE t = "unit0" -> TUnit
+                    [] t = "unit1" -> TEnum(<<TVariant(0, <<>>)>>)
+                    [] OTHER -> FieldTy(t)
+FastLayout(imode, def) ==
+  LET keep == IF imode = "skip_zst" THEN SelectSeq(def.fs, LAMBDA x : ~IsZstTy(x.ty)) ELSE def.fs
+  IN [k |-> "tuple", ts |-> [i \in 1..Len(keep) |-> FastFieldTy(keep[i].ty)], sz |-> 0]
+\* layout of a transparent struct whose fields may be zero-sized types
+TLayoutField(fld) == IF fld.attr \in {"compact", "encoded_as"} THEN TCompact(IntWidth(fld.ty)) ELSE FastFieldTy(fld.ty)
+TLayout(def) == LET keep == SelectSeq(def.fs, LAMBDA x : ~Skipped(x)) IN
+                [k |-> "tuple", ts |-> [i \in 1..Len(keep) |-> TLayoutField(keep[i])], sz |-> 0]
+FastPathSound(imode, def) == FastPathTaken(imode, def) => FastLayout(imode, def) = TLayout(def)
+
+(***************************************************************************)
 (* derive(MaxEncodedLen): sum over non-skipped fields; the bound of the    *)
 (* representation type ("fixed") or of the declared field type ("legacy"). *)
 (***************************************************************************)
